@@ -227,6 +227,17 @@ func oracleC10() *Result {
 	for _, e := range chainSources {
 		add([]byte(e), "chains")
 	}
+	// literals at the edges of what both languages read the same way: offsets in simple interpolation (integer up
+	// to MaxInt64, string beyond and for every other spelling), integer / float literal boundaries
+	for _, of := range []string{"0", "7", "42", "9223372036854775806", "9223372036854775807", "9223372036854775808", "99999999999999999999", "0x1F", "0b11", "012", "00", "b", "foo_1"} {
+		for _, form := range []string{"<?php \"$a[%s]\";", "<?php echo \"x $a[%s] y\";", "<?php echo <<<A\n$a[%s]\nA;\n", "<?php `$a[%s]`;", "<?php \"$a[%s]$b[%s]\";"} {
+			add([]byte(strings.ReplaceAll(form, "%s", of)), "interpolation-offset")
+		}
+	}
+	for _, lit := range []string{"9223372036854775807", "9223372036854775808", "0x7FFFFFFFFFFFFFFF", "0x8000000000000000", "0777777777777777777777", "01000000000000000000000",
+		"0b111111111111111111111111111111111111111111111111111111111111111", "1e3", "1E-3", ".5", "6.", "1.5e+3", "00", "08", "0x", "1e", "1.e3"} {
+		add([]byte("<?php $a = "+lit+"; f("+lit+", -"+lit+");"), "literal-boundary")
+	}
 	for _, s := range loadCorpus() {
 		add(s.Src, "corpus")
 	}
